@@ -252,7 +252,14 @@ func (f *Fn) SameExpr(a, b ast.Expr) bool {
 		y, ok := b.(*ast.TypeAssertExpr)
 		return ok && f.SameExpr(x.X, y.X)
 	}
-	return false
+	return f.sameTypeExpr(a, b)
+}
+
+// sameTypeExpr: both are type expressions denoting identical types.
+func (f *Fn) sameTypeExpr(a, b ast.Expr) bool {
+	ta, oka := f.Info().Types[a]
+	tb, okb := f.Info().Types[b]
+	return oka && okb && ta.IsType() && tb.IsType() && types.Identical(ta.Type, tb.Type)
 }
 
 // SameModulo compares a and b where occurrences of object oa in a correspond to
@@ -308,8 +315,11 @@ func (f *Fn) SameModulo(a, b ast.Expr, oa, ob types.Object) bool {
 			}
 		}
 		return true
+	case *ast.SliceExpr:
+		y, ok := b.(*ast.SliceExpr)
+		return ok && f.SameModulo(x.X, y.X, oa, ob) && f.SameModulo(x.Low, y.Low, oa, ob) && f.SameModulo(x.High, y.High, oa, ob)
 	}
-	return false
+	return f.sameTypeExpr(a, b)
 }
 
 // EqParts views a fact as an equality: for `x == y` (Val) or `x != y` (!Val)
